@@ -216,6 +216,8 @@ Definition next_op (t : tid) (k : task) : mop :=
     "every run can be driven to quiescence") *)
 Definition task_weight (k : task) : nat :=
   match k with TClose s => 3 * s + 3 | TClear s => 3 * s + 2 | TRel p => 3 * p + 4 end.
+Fixpoint pending_weight (l : list (tid * task)) : nat :=
+  match l with [] => 0 | x :: r => task_weight (snd x) + pending_weight r end.
 
 (* ---------- observation helpers for the examples ---------- *)
 
